@@ -41,6 +41,9 @@ type program struct {
 	// corpus error (the lattice still demands that every point agrees with the baseline).
 	MayFailCompile bool
 	Order          bool // member of the quick-tier slice used for shared-cache order scenarios
+	// ListenHostOnly: when the listener toggle is on, the factory returns listeners for host functions only
+	// (default: for every function, guest and host).
+	ListenHostOnly bool
 	// ThoroughOnlyOn: engine on which the program is too expensive for the quick tier (stack exhaustion in
 	// the compiler touches a 50 MB stack: ~0.2 s per run).
 	ThoroughOnlyOn string
@@ -54,19 +57,25 @@ func (p *program) tag() string {
 }
 
 var envSigs = map[string][2][]byte{
-	"log":       {{i32}, nil},
-	"add64":     {{i64, i64}, {i64}},
-	"rw":        {{i32, i32}, {i32}},
-	"f64pass":   {{f64}, {f64}},
-	"f32pass":   {{f32}, {f32}},
-	"panic":     {nil, nil},
-	"exit":      {{i32}, nil},
-	"closeonly": {{i32}, nil},
-	"reenter":   {{i32}, {i32}},
-	"memgrow":   {{i32}, {i32}},
-	"peek":      {{i32}, {i32}},
-	"pair":      {{i32}, {i32, i64}},
-	"ext":       {{wb.ExternRef}, {wb.ExternRef}},
+	"log":         {{i32}, nil},
+	"add64":       {{i64, i64}, {i64}},
+	"rw":          {{i32, i32}, {i32}},
+	"f64pass":     {{f64}, {f64}},
+	"f32pass":     {{f32}, {f32}},
+	"panic":       {nil, nil},
+	"exit":        {{i32}, nil},
+	"closeonly":   {{i32}, nil},
+	"reenter":     {{i32}, {i32}},
+	"memgrow":     {{i32}, {i32}},
+	"mrd":         {{i32}, {i32}},
+	"mwr":         {{i32, i32}, nil},
+	"mname":       {nil, {i32}},
+	"mglob":       {nil, {i64}},
+	"note":        {{i32}, {i32}},
+	"reentermain": {{i32}, {i32}},
+	"peek":        {{i32}, {i32}},
+	"pair":        {{i32}, {i32, i64}},
+	"ext":         {{wb.ExternRef}, {wb.ExternRef}},
 }
 
 type pb struct {
@@ -99,7 +108,9 @@ func (b *pb) exp(name string, params, results, locals []byte, a *wb.Asm) uint32 
 	return idx
 }
 
-func (b *pb) call(fn string, args ...uint64) { b.p.Calls = append(b.p.Calls, call{fn, append([]uint64{}, args...)}) }
+func (b *pb) call(fn string, args ...uint64) {
+	b.p.Calls = append(b.p.Calls, call{fn, append([]uint64{}, args...)})
+}
 
 func (b *pb) mem(min uint32, max int64) {
 	l := &wb.Limits{Min: min}
@@ -1309,6 +1320,104 @@ func famLinked(th bool) []*program {
 	return ps
 }
 
+// ---------------------------------------------------------------- linked modules + module-dependent host functions
+
+// linkedHostMem: instances "main" and "lib", each with its OWN memory (different marker bytes) and its own
+// exported mutable global "tag"; both import the module-dependent host functions. Call shapes: main->host,
+// main->lib->host, main->lib->host->(re-enter main.cb)->host. What the host reads, writes and names depends on
+// which module it is handed, and both final memories are part of the trace.
+func linkedHostMem(k int, hostOnly bool) *program {
+	imports := []string{"mrd", "mwr", "mname", "mglob", "note", "reentermain"}
+	// ---- lib
+	lb := newP("linked-hostmem", "lib", imports...)
+	lb.m.Mem = &wb.Limits{Min: 1, Max: 2, HasMax: true}
+	lb.m.Datas = []wb.Data{{Offset: wb.CI32(0), Bytes: []byte("LLLL-lib-memory")}}
+	ltag := lb.m.AddGlobal(i64, true, wb.CI64(int64(0x11b00+k)))
+	lb.m.Exports = append(lb.m.Exports, wb.Export{Name: "tag", Kind: wb.KindGlobal, Idx: ltag}, wb.Export{Name: "mem", Kind: wb.KindMemory, Idx: 0})
+	lb.exp("lrd", []byte{i32}, []byte{i32}, nil, asm().LocalGet(0).Call(lb.env["mrd"]))
+	lb.exp("lwr", []byte{i32, i32}, nil, nil, asm().LocalGet(0).LocalGet(1).Call(lb.env["mwr"]).
+		GlobalGet(ltag).I64Const(1).Op(0x7c).GlobalSet(ltag))
+	lb.exp("lname", nil, []byte{i32}, nil, asm().Call(lb.env["mname"]))
+	lb.exp("lglob", nil, []byte{i64}, nil, asm().Call(lb.env["mglob"]))
+	lb.exp("lnote", []byte{i32}, []byte{i32}, nil, asm().LocalGet(0).Call(lb.env["note"]))
+	// lchain: lib -> host -> main.cb -> host, then lib reads its own memory through the host again
+	lb.exp("lchain", []byte{i32}, []byte{i32}, nil, asm().
+		LocalGet(0).Call(lb.env["reentermain"]).LocalGet(0).Call(lb.env["mrd"]).Op(0x6a))
+	// ---- main
+	b := newP("linked-hostmem", fmt.Sprintf("linked-hostmem-%d", k), imports...)
+	if hostOnly {
+		b.p.Name += "-hostlisteners"
+		b.p.ListenHostOnly = true
+	}
+	b.p.Lib = lb.m.Encode()
+	b.p.LibGlobals = []string{"tag"}
+	type lf struct {
+		name   string
+		p, res []byte
+	}
+	libIdx := map[string]uint32{}
+	for _, f := range []lf{{"lrd", []byte{i32}, []byte{i32}}, {"lwr", []byte{i32, i32}, nil}, {"lname", nil, []byte{i32}},
+		{"lglob", nil, []byte{i64}}, {"lnote", []byte{i32}, []byte{i32}}, {"lchain", []byte{i32}, []byte{i32}}} {
+		libIdx[f.name] = b.m.ImportFunc("lib", f.name, f.p, f.res)
+	}
+	b.mem(1, 2)
+	b.m.Datas = []wb.Data{{Offset: wb.CI32(0), Bytes: []byte("MMMM-main-memory")}}
+	tag := b.global("tag", i64, true, wb.CI64(int64(0x22a00+k)))
+	// main -> host
+	b.exp("hrd", []byte{i32}, []byte{i32}, nil, asm().LocalGet(0).Call(b.env["mrd"]))
+	b.exp("hwr", []byte{i32, i32}, nil, nil, asm().LocalGet(0).LocalGet(1).Call(b.env["mwr"]).
+		GlobalGet(tag).I64Const(1).Op(0x7c).GlobalSet(tag))
+	b.exp("hname", nil, []byte{i32}, nil, asm().Call(b.env["mname"]))
+	b.exp("hglob", nil, []byte{i64}, nil, asm().Call(b.env["mglob"]))
+	b.exp("hnote", []byte{i32}, []byte{i32}, nil, asm().LocalGet(0).Call(b.env["note"]))
+	// main -> lib -> host (wrapped: exported imports cannot be called directly with the compiler)
+	b.exp("vrd", []byte{i32}, []byte{i32}, nil, asm().LocalGet(0).Call(libIdx["lrd"]))
+	b.exp("vwr", []byte{i32, i32}, nil, nil, asm().LocalGet(0).LocalGet(1).Call(libIdx["lwr"]))
+	b.exp("vname", nil, []byte{i32}, nil, asm().Call(libIdx["lname"]))
+	b.exp("vglob", nil, []byte{i64}, nil, asm().Call(libIdx["lglob"]))
+	b.exp("vnote", []byte{i32}, []byte{i32}, nil, asm().LocalGet(0).Call(libIdx["lnote"]))
+	// mixed in one activation: own memory via host, lib's memory via lib->host, own again
+	b.exp("mix", []byte{i32}, []byte{i32}, nil, asm().
+		LocalGet(0).Call(b.env["mrd"]).I32Const(8).Op(0x74).
+		LocalGet(0).Call(libIdx["lrd"]).Op(0x72).I32Const(8).Op(0x74).
+		LocalGet(0).Call(b.env["mrd"]).Op(0x72))
+	// main -> lib -> host -> main.cb -> host
+	b.exp("cb", []byte{i32}, []byte{i32}, nil, asm().
+		LocalGet(0).I32Const(int32(0x40+k)).Call(b.env["mwr"]).LocalGet(0).Call(b.env["mrd"]).Call(b.env["mname"]).Op(0x73))
+	b.exp("chain", []byte{i32}, []byte{i32}, nil, asm().LocalGet(0).Call(libIdx["lchain"]))
+	a := uint64(k % 4)
+	b.call("hrd", a)
+	b.call("vrd", a)
+	b.call("mix", a+1)
+	b.call("hname")
+	b.call("vname")
+	b.call("hglob")
+	b.call("vglob")
+	b.call("hnote", 3)
+	b.call("vnote", 4)
+	b.call("hwr", 20, 0x6d)
+	b.call("vwr", 20, 0x6c)
+	b.call("hrd", 20)
+	b.call("vrd", 20)
+	b.call("chain", 24)
+	b.call("hrd", 24)
+	b.call("vrd", 24)
+	b.call("hglob")
+	b.call("vglob")
+	b.call("vrd", 70000) // outside lib's memory (and main's)
+	return b.done()
+}
+
+func famLinkedHost(th bool) []*program {
+	ps := []*program{linkedHostMem(0, false), linkedHostMem(0, true)}
+	if th {
+		for k := 1; k < 4; k++ {
+			ps = append(ps, linkedHostMem(k, false), linkedHostMem(k, true))
+		}
+	}
+	return ps
+}
+
 // ---------------------------------------------------------------- instantiation errors
 
 func initErr(k int) *program {
@@ -1341,7 +1450,7 @@ func famInitErr(th bool) []*program {
 
 func buildCorpus(thorough bool) []*program {
 	var ps []*program
-	for _, f := range []func(bool) []*program{famArith, famControl, famMem, famGlobals, famTables, famBulk, famHost, famTraps, famMV, famSections, famStart, famV2, famLinked, famInitErr} {
+	for _, f := range []func(bool) []*program{famArith, famControl, famMem, famGlobals, famTables, famBulk, famHost, famTraps, famMV, famSections, famStart, famV2, famLinked, famLinkedHost, famInitErr} {
 		ps = append(ps, f(thorough)...)
 	}
 	seen := map[string]bool{}
